@@ -81,6 +81,11 @@ func transitionDays() [][3]int {
 			if end.IsZero() || end.After(limit) {
 				break
 			}
+			if _, o1 := end.Add(-time.Second).Zone(); true {
+				if _, o2 := end.Zone(); o1 == o2 {
+					break // (no offset change: beyond the zone's table ZoneBounds returns instants that are none)
+				}
+			}
 			for _, x := range []time.Time{end.Add(-time.Second), end} {
 				y, m, d := x.Date()
 				k := [3]int{y, int(m), d}
